@@ -55,7 +55,7 @@ def main():
     na = []
     props = [json.loads(l) for l in open(os.path.join(HERE, "properties.jsonl"))]
     skip = {}
-    skip_path = os.path.join(HERE, "tools", "not_applicable.json")
+    skip_path = os.path.join(HERE, "tools", "not_claimed.json")
     if os.path.exists(skip_path):
         skip = json.load(open(skip_path))
     for p in props:
